@@ -361,6 +361,8 @@ def verif_call(eng, st, fr, ins, name, args):
             st.covers[ident] = tuple(st.pc)
         return None
     if name == 'verif_mark':
+        if eng.mark_hook is not None:
+            eng.mark_hook(eng, st, args[0], args[1])
         st.marks.append(('mark', args[0], args[1], st.po, tuple(st.pc)))
         st.po += 1
         return None
